@@ -228,12 +228,17 @@ func c56Judge(r *vlib.Run, fam string, ci int, m *c56Mon, minIv time.Duration, d
 			rn := m.rns[found]
 			rnUsed = found + 1
 			prevEnabler = prev.OutcomeSeq
-			// (b) and the minimum interval must have passed (weakest reading:
-			// measured between the starts of the two lookups)
-			if gap := lk.StartAt - prev.StartAt; gap < minIv {
+			// (b) and the minimum interval must have passed "after a successful
+			// resolution" (statement): measured from the instant the successful
+			// result was handed to the ClientConn, not from the start of that
+			// lookup - a slow lookup does not shorten the pause.
+			if gap := lk.StartAt - prev.OutcomeAt; gap < minIv {
 				r.Violation("re-resolution-before-min-interval", fam, ci, detail(),
-					"lookup #%d started at +%v, only %v after lookup #%d (+%v, successful); MinResolutionInterval is %v", n, lk.StartAt, gap, n-1, prev.StartAt, minIv)
+					"lookup #%d started at +%v, only %v after the successful resolution #%d completed (+%v; that lookup had started at +%v); MinResolutionInterval is %v", n, lk.StartAt, gap, n-1, prev.OutcomeAt, prev.StartAt, minIv)
 				return v, false
+			}
+			if prev.OutcomeAt-prev.StartAt >= minIv/4 && minIv > 0 {
+				v.sig[fmt.Sprintf("re-resolve/slow-previous-lookup/min=%s", c56IvClass(minIv))] = true
 			}
 			timing := "rn-after-interval"
 			switch {
@@ -358,7 +363,13 @@ func c56Pacing(r *vlib.Run, fam string, ci int, rng *rand.Rand) {
 			}
 		}
 		if oc.Latency == 0 && g.Intn(3) == 0 {
-			oc.Latency = time.Duration(vlib.Pick(g, 1, 20, 300, 2000, 12000)) * time.Millisecond
+			oc.Latency = time.Duration(vlib.Pick(g, 1, 20, 300, 2000, 12000, 25000)) * time.Millisecond
+			if g.Intn(3) == 0 && minIv > 0 { // latency comparable to the interval
+				oc.Latency = vlib.Pick(g, minIv/3, minIv/2, minIv*9/10, minIv, minIv+minIv/10)
+				if oc.Latency >= ResolvingTimeout {
+					oc.Latency = ResolvingTimeout - time.Second
+				}
+			}
 		}
 		cache[idx] = oc
 		return oc
@@ -821,10 +832,10 @@ func TestVerifC56(t *testing.T) {
 	r.Finish(vlib.Spec{
 		Level: "exploration",
 		Rule: "parse: targets generated from the statement's grammar (host, host:port, v4, v4:port, [v6], [v6]:port, bare v6 incl. zones and v4-mapped, trailing colon, empty, :port, v4 look-alike names, malformed and random strings) through the real parseTarget/formatIP and, for IP targets, Build (emitted address); expected values are known by construction. " +
-			"pacing: the real dnsResolver inside a synctest bubble with a scripted NetResolver (ok / temporary error / suppressed not-found / unparsable A record / timeout, latencies 0..12s) and ClientConn (accept / reject), MinResolutionInterval in {0,1ms,0.5s,7s,30s,100s}, 4-27 driver steps (sleep in {0,1ms,min/2,min-1ns,min,min+1ns,2min,1s..200s} then 0-5 ResolveNow calls), judged from the recorded (sequence, virtual time) history, then liveness and post-Close silence at synctest.Wait() quiescence. distinct = (ResolveNow timing class, exact-interval, interval class) / (retry index, failure kind) / parse class",
+			"pacing: the real dnsResolver inside a synctest bubble with a scripted NetResolver (ok / temporary error / suppressed not-found / unparsable A record / timeout, latencies 0..25s and fractions of the interval) and ClientConn (accept / reject), MinResolutionInterval in {0,1ms,0.5s,7s,30s,100s}, 4-27 driver steps (sleep in {0,1ms,min/2,min-1ns,min,min+1ns,2min,1s..200s} then 0-5 ResolveNow calls), judged from the recorded (sequence, virtual time) history, then liveness and post-Close silence at synctest.Wait() quiescence. distinct = (ResolveNow timing class, exact-interval, interval class) / (retry index, failure kind) / parse class",
 		Assumptions: []string{
 			"a re-resolution after a success needs its own ResolveNow call (calls coalesce: one pending request at most is not required, only that each re-resolution is matched by a distinct earlier call)",
-			"minimum interval is measured between the starts of consecutive lookups (weakest reading)",
+			"minimum interval is measured from the moment the successful result was delivered to the ClientConn (statement: 'after a successful resolution') to the start of the next lookup",
 			"retry delay after the k-th consecutive failure is within [0.8*min(1.6^(k-1),120)s, 1.2*min(1.6^k,120)s] (connection-backoff defaults, either index convention)",
 			"ResolveNow after a success must eventually cause a lookup (dnsResolver.ResolveNow doc), judged only at virtual-time quiescence",
 			"':port' resolves to localhost (documented on parseTarget); malformed targets are only judged for totality",
